@@ -762,7 +762,11 @@ func zvC08Names(ds []zvC08Desc, xs []int) []string {
 
 func zvC08Configs(thorough bool) []zvC08Cfg {
 	var cs []zvC08Cfg
-	for _, ap := range []int{2, 0} { // add-path configurations are the expensive ones: first
+	aps := []int{2, 0} // add-path configurations are the expensive ones: first
+	if thorough {
+		aps = []int{3, 2, 0}
+	}
+	for _, ap := range aps {
 		for _, k := range []string{"ebgp", "rr", "rs", "ibgp"} {
 			for _, pol := range []string{"accept", "reject_p1", "set_med"} {
 				cs = append(cs, zvC08Cfg{Kind: k, AddPath: ap, Policy: pol, Small: !thorough})
@@ -783,7 +787,7 @@ func TestVerifC08(t *testing.T) {
 	r := vh.Start(t, "C08")
 	defer r.Finish()
 	zvoTune()
-	r.Rule("per configuration (session kind ebgp|rs-client|ibgp|rr-client x add-path TX off|MaxPaths 2 x export policy accept-all|reject P1|set MED; rr-client also with an already reflected iBGP path), " +
+	r.Rule("per configuration (session kind ebgp|rs-client|ibgp|rr-client x add-path TX off|MaxPaths 2 (thorough: also 3) x export policy accept-all|reject P1|set MED; rr-client also with an already reflected iBGP path), " +
 		"BFS over all Loc-RIB histories of AddPath/RemovePath/ReplacePath of {eBGP-learned, iBGP-learned, learned from this peer, NO_EXPORT, NO_ADVERTISE, static} paths on 2 prefixes " +
 		"(quick: the second prefix takes 3 of the 6 paths and no ReplacePath) until the canonical state (Loc-RIB order, stored paths, peer view, pathIDManager) set closes; " +
 		"oracle on every reached state: Adj-RIB-Out table and the peer view of the recording client equal the reference export view; evaluations = configurations explored")
